@@ -691,7 +691,7 @@ pub fn run(env: &Env, rec: &Recorder, which: Which) -> (String, Vec<&'static str
                 Which::C05 => "raw trees as for C03 (25 % pre-edited so that nothing is missing) and modelled trees of up to 6 files; oracle: multiset of (file,line,col) reported by --check = positions (position model: 1-based, characters) of the tokens the edit run inserts, totals and exit status consistent, for modelled files also = the model's Missing set. Non-trivial = distinct tree/statement with a missing reference on a line containing a tab, multi-byte character or CRLF, or files with different counts, or a tree with nothing missing (exit 0 side)",
                 _ => "CLI half of C17: raw trees incl. invalid UTF-8, empty files, truncated statements, non-ASCII identifiers before `!(`, repeated blocks up to 4-6 MiB; oracle: neither mode panics / aborts / dies by signal, a file that is not valid UTF-8, or whose open/read fails (injected EACCES/EIO on a third of the multi-file trees), is named in an error line and left untouched while the other files are processed exactly as the parser predicts / as without the fault. Non-trivial = tree containing a mutated file, an invalid-UTF-8 file or a file > 1 MiB",
             };
-            (rule.to_string(), vec!["a run exceeding the 120 s watchdog is reported as inconclusive (exit 2), never as a violation"])
+            (rule.to_string(), vec!["a run exceeding the 360 s watchdog (an in-process parser call: 300 s) is reported as inconclusive (exit 2), never as a violation"])
         },
     }
 }
